@@ -231,6 +231,20 @@ func ruleC08Callbacks(c *Checker) {
 		}
 		mc, ok := st.Val.(*ssa.MakeClosure)
 		if !ok {
+			// nil stored after the finder has returned is the disabling written out where disable() was called
+			if isNilConst(st.Val) {
+				afterFinder := false
+				for _, ci := range callsIn(fn) {
+					if ci.Common().IsInvoke() && ci.Common().Method.Name() == "FindDependencies" {
+						if ci.Block() == st.Block() && instrIndex(ci) < instrIndex(st) || (ci.Block() != st.Block() && reachFromBlock(ci.Block())[st.Block()]) {
+							afterFinder = true
+						}
+					}
+				}
+				if afterFinder {
+					return
+				}
+			}
 			c.fail(R, name, "callback "+f, p.Pos(st.Pos()), "the callback is not a closure of the draining function")
 			return
 		}
